@@ -39,6 +39,15 @@ fn byte_engine(f1: &ParserFactory, g: &GCase, bytes: &[u8]) -> Option<Matcher> {
     Some(m)
 }
 
+/// the whole byte sequence is accepted by a single-byte engine with all limits relaxed => a refusal by the
+/// ordinary byte engine was a resource limit, not a verdict
+fn bytes_ok_relaxed(v1: &Vocab, g: &GCase, all: &[u8]) -> bool {
+    match all.split_last() {
+        Some((last, pre)) => crate::tp::accepted_with_relaxed_limits(v1, Some(vec![]), g, &pre.iter().map(|&b| b as u32).collect::<Vec<_>>(), *last as u32),
+        None => true,
+    }
+}
+
 struct Env<'a> {
     g: &'a GCase,
     v: &'a Vocab,
@@ -60,6 +69,10 @@ fn check_ff_state(ctx: &mut Ctx, rng: &mut Rng, e: &Env, m: &mut Matcher, hist: 
         ctx.rep.add("forced_bytes_checked", ffb.len() as u64);
         // (a) every forced byte is the only byte allowed, and the state before it is not accepting
         let Some(mut e1) = byte_engine(e.f1, e.g, &bytes) else {
+            if bytes_ok_relaxed(e.v1, e.g, &bytes) {
+                ctx.rep.inconclusive("resource_stop");
+                return Ok(());
+            }
             return Err(("history_rejected_by_byte_engine".into(), json!({"bytes": bytes_dbg(&bytes)})));
         };
         for (i, &b) in ffb.iter().enumerate() {
@@ -85,6 +98,12 @@ fn check_ff_state(ctx: &mut Ctx, rng: &mut Rng, e: &Env, m: &mut Matcher, hist: 
                 ));
             }
             if e1.consume_token(b as u32).is_err() {
+                let mut all = bytes.clone();
+                all.extend_from_slice(&ffb[..=i]);
+                if bytes_ok_relaxed(e.v1, e.g, &all) {
+                    ctx.rep.inconclusive("resource_stop");
+                    return Ok(());
+                }
                 return Err(("forced_byte_rejected".into(), json!({"forced": bytes_dbg(&ffb), "pos": i})));
             }
         }
@@ -102,6 +121,12 @@ fn check_ff_state(ctx: &mut Ctx, rng: &mut Rng, e: &Env, m: &mut Matcher, hist: 
             let mut t = m.deep_clone();
             for (i, &tok) in fft.iter().enumerate() {
                 if t.consume_token(tok).is_err() {
+                    let mut h = hist.to_vec();
+                    h.extend_from_slice(&fft[..i]);
+                    if crate::tp::accepted_with_relaxed_limits(e.v, None, e.g, &h, tok) {
+                        ctx.rep.inconclusive("resource_stop");
+                        return Ok(());
+                    }
                     return Err(("ff_token_rejected".into(), json!({"ff_tokens": fft, "index": i})));
                 }
             }
@@ -109,6 +134,10 @@ fn check_ff_state(ctx: &mut Ctx, rng: &mut Rng, e: &Env, m: &mut Matcher, hist: 
             let mut all = bytes.clone();
             all.extend_from_slice(&dec);
             let Some(mut e1) = byte_engine(e.f1, e.g, &all) else {
+                if bytes_ok_relaxed(e.v1, e.g, &all) {
+                    ctx.rep.inconclusive("resource_stop");
+                    return Ok(());
+                }
                 return Err(("ff_tokens_bytes_rejected_by_byte_engine".into(), json!({"bytes": bytes_dbg(&all)})));
             };
             let (ta, ea) = (t.is_accepting().ok(), e1.is_accepting().ok());
